@@ -707,6 +707,20 @@ func vDiverge(p1 []vStep, j1 int, p2 []vStep, j2 int) bool {
 	return false
 }
 
+// two rows of one handle diverge when neither path is a prefix of the other (mirror of `diverge` in Model.v)
+func vDivergeRows(p1, p2 []vStep) bool {
+	for k := 0; k < len(p1) && k < len(p2); k++ {
+		if p1[k] == p2[k] {
+			continue
+		}
+		if p1[k].j != p2[k].j {
+			return true
+		}
+		return p1[k].ps && p2[k].ps
+	}
+	return false
+}
+
 // lookup finds the position with the same handle, path and row type in the current enumeration
 func (g *vProg) lookup(all []vPos, p vPos) *vPos {
 	pt := vPathTerm(p.p)
@@ -962,8 +976,9 @@ func (g *vProg) planAt(pos vPos, all []vPos) *vPlan {
 				continue
 			}
 			var cands []vPos
+			sameOK := !g.forceCopySrc && rng.Intn(3) == 0 // also rows of the SAME handle whose paths diverge
 			for _, q := range all {
-				if q.n == n && q.h != h {
+				if q.n == n && (q.h != h || (sameOK && vDivergeRows(pos.p, q.p))) {
 					cands = append(cands, q)
 				}
 			}
@@ -1747,7 +1762,7 @@ func (g *vProg) planCrossDir(pos vPos, j int, f vFld, all []vPos, hotDst bool) *
 		j int
 	}
 	var cands []cand
-	sameOK := g.forceK < 0 && g.forceH < 0 && !hotDst && rng.Intn(4) == 0 // also slots of the SAME handle whose paths diverge (CopyTo only)
+	sameOK := g.forceK < 0 && g.forceH < 0 && !hotDst && rng.Intn(3) == 0 // also slots of the SAME handle whose paths diverge
 	for _, q := range all {
 		if q.h == pos.h && !sameOK {
 			continue
@@ -1842,9 +1857,11 @@ func (g *vProg) planCrossDir(pos vPos, j int, f vFld, all []vPos, hotDst bool) *
 	if g.forceCopySrc {
 		kind = 0
 	}
-	if src.h == dst.h { // two diverging positions inside one payload: only CopyTo (the model's moves are between handles)
-		kind = 0
-		g.out.Stat("copy_within_one_handle", 1)
+	if src.h == dst.h { // two diverging positions inside one payload (rename an attribute, element -> element ...): copies AND moves
+		g.out.Stat("cross_op_within_one_handle", 1)
+		if rng.Intn(3) > 0 {
+			kind = 3 + rng.Intn(2) // prefer the moves: MoveTo where the type has it, else MoveAndAppendTo (falls back to CopyTo)
+		}
 	}
 	// the source of a move must end up without capacity: observed too (struct slices, Map, Slice)
 	addSrcCap := func(pl *vPlan) *vPlan {
@@ -1860,7 +1877,7 @@ func (g *vProg) planCrossDir(pos vPos, j int, f vFld, all []vPos, hotDst bool) *
 	}
 	hasMoveTo := f.k == kAny || f.k == kPs || (f.k == kSl && f.elem == 1)
 	hasMoveAppend := f.k == kSl && f.elem != 1
-	if boundary && src.h != dst.h && rng.Bool() { // moves are the operations that tend to short-cut on an empty source
+	if boundary && rng.Bool() { // moves are the operations that tend to short-cut on an empty source
 		if hasMoveTo {
 			kind = 3
 		} else if hasMoveAppend {
